@@ -129,8 +129,13 @@ def step(rng, pool):
         keep = "".join(c for c in letters if rng.random() < 0.5)
         if rng.random() < 0.5:
             keep = keep[::-1]
-        which = int(rng.integers(3))
-        if which == 0:
+        which = int(rng.integers(4))
+        if which == 3 and not isinstance(x, sparse.DOK):
+            # every sum over the last index cancels exactly
+            y = sparse.concatenate([x, -x], axis=nd - 1)
+            sub = f"{letters}->{letters[:-1]}" if nd > 1 else f"{letters},{letters}->{letters}"
+            r = sparse.einsum(sub, *([y] if nd > 1 else [x, x - x]))
+        elif which == 0 or which == 3:
             sub = f"{letters}->{keep}"
             r = sparse.einsum(sub, x)
         elif which == 1:
